@@ -3,7 +3,7 @@
    result in propagateAndSearchPB.  Model: Model/CPSearch.v, proofs and
    diagnosis: Proofs/CPSearch.v.
 
-   [cutting_planes] is the code as it is now (after commit 2aa45b5):
+   [cutting_planes] is the code as it is now (commit 0a73d0f):
      C14_search_sound, C14_search_total, C14_search_fixed_witnesses.
    [cutting_planes_old] is the code before that commit; it violated the verdict,
    no-panic and termination parts of C14: the three C14_search_old_*_refuted
@@ -101,6 +101,19 @@ Theorem C14_search_go_outputs :
   (exists md rs, caller go_st3 = KLearn [-3; 1; 5; 4] md rs (PBC [(2, -1); (1, 2); (1, 4); (1, -5)] 2) 2).
 Proof. exact go_outputs. Qed.
 Print Assumptions C14_search_go_outputs.
+
+(* the same at commit 0a73d0f, on the two calls of a run in which the new end of
+   cuttingPlanes matters: a unit that is a new fact is returned as before; a unit
+   that is already a fact is not: the whole constraint is learned (before
+   0a73d0f: the unit again) *)
+Theorem C14_search_go_outputs2 :
+  state_wf3b go_st4 = true /\ cutting_planes go_st4 = CPUnits [4] /\
+  state_wf3b go_st5 = true /\
+  cutting_planes go_st5 = CPLearn (PBC [(2, 4); (1, 2); (1, 3); (1, 7)] 4) [7] 2 /\
+  (exists md rs, caller go_st5 = KLearn [4; -3; 7] md rs (PBC [(2, 4); (1, 2); (1, 3); (1, 7)] 4) 2) /\
+  fst (cutting_planes_mid_full go_st5) = CPUnits [4].
+Proof. exact go_outputs2. Qed.
+Print Assumptions C14_search_go_outputs2.
 
 (* ---- the code before 2aa45b5 ------------------------------------------ *)
 
